@@ -174,6 +174,28 @@ class Module:
         return out
 
 
+class SymName(str):
+    """a reference to a function / class kept symbolically inside a folded table"""
+
+    def __repr__(self) -> str:
+        return f"SymName({str.__repr__(self)})"
+
+
+class _SymEnv(dict):
+    """environment in which unknown plain names / dotted names evaluate to SymName"""
+
+    def __init__(self, base: Dict[str, Any]):
+        super().__init__(base)
+
+    def __contains__(self, k: object) -> bool:
+        return True
+
+    def __getitem__(self, k: str) -> Any:
+        if dict.__contains__(self, k):
+            return dict.__getitem__(self, k)
+        return SymName(k)
+
+
 def fold(node: ast.AST, env: Dict[str, Any]) -> Any:
     """Constant folding of literal expressions (the analyser's own evaluator)."""
     if isinstance(node, ast.Constant):
@@ -184,6 +206,23 @@ def fold(node: ast.AST, env: Dict[str, Any]) -> Any:
         if node.id in ("True", "False", "None"):
             return {"True": True, "False": False, "None": None}[node.id]
         raise _Unfoldable(node.id)
+    if isinstance(node, ast.Dict) and node.keys and all(k is not None or True for k in node.keys):
+        # a table whose *values* are references to functions / classes (decoder tables): keep those as symbolic names
+        out2 = {}
+        for k, v in zip(node.keys, node.values):
+            if k is None:
+                sub = fold(v, _SymEnv(env))
+                if not isinstance(sub, dict):
+                    raise _Unfoldable("**")
+                out2.update(sub)
+            else:
+                out2[fold(k, env)] = fold(v, _SymEnv(env))
+        return out2
+    if isinstance(node, ast.Attribute) and isinstance(env, _SymEnv):
+        base = fold(node.value, env)
+        if isinstance(base, SymName):
+            return SymName(f"{base}.{node.attr}")
+        raise _Unfoldable("attribute")
     if isinstance(node, (ast.List, ast.Tuple, ast.Set)):
         items = []
         for e in node.elts:
@@ -228,6 +267,124 @@ def fold(node: ast.AST, env: Dict[str, Any]) -> Any:
         if node.func.id in ("tuple", "list", "frozenset", "set") and len(node.args) <= 1:
             items = fold(node.args[0], env) if node.args else ()
             return frozenset(items) if node.func.id in ("frozenset", "set") else tuple(items)
+        if node.func.id == "dict" and len(node.args) <= 1:
+            src = fold(node.args[0], env) if node.args else {}
+            return dict(src) if isinstance(src, dict) else dict(tuple(src))
+        if node.func.id == "range" and 1 <= len(node.args) <= 3:
+            a = [fold(x, env) for x in node.args]
+            if all(isinstance(x, int) for x in a) and len(range(*a)) <= 4096:
+                return tuple(range(*a))
+        if node.func.id == "len" and len(node.args) == 1:
+            return len(fold(node.args[0], env))
+        if node.func.id in ("zip", "enumerate", "sorted", "reversed") and node.args:
+            a = [fold(x, env) for x in node.args]
+            if all(isinstance(x, (tuple, frozenset, dict)) for x in a):
+                seqs = [tuple(x) for x in a]
+                if node.func.id == "zip":
+                    return tuple(zip(*seqs))
+                if node.func.id == "enumerate" and len(seqs) == 1:
+                    return tuple(enumerate(seqs[0]))
+                try:
+                    if node.func.id == "sorted" and len(seqs) == 1:
+                        return tuple(sorted(seqs[0]))
+                except TypeError:
+                    raise _Unfoldable("sorted")
+                if node.func.id == "reversed" and len(seqs) == 1:
+                    return tuple(reversed(seqs[0]))
+    if isinstance(node, ast.Call) and isinstance(node.func, ast.Attribute) and not node.keywords:
+        # dict.fromkeys(KEYS[, V]);  <const dict>.items() / .keys() / .values()
+        if isinstance(node.func.value, ast.Name) and node.func.value.id == "dict" and node.func.attr == "fromkeys" and 1 <= len(node.args) <= 2:
+            keys = fold(node.args[0], env)
+            val = fold(node.args[1], env) if len(node.args) == 2 else None
+            return {k: val for k in keys}
+        if node.func.attr in ("items", "keys", "values") and not node.args:
+            d = fold(node.func.value, env)
+            if isinstance(d, dict):
+                return tuple(getattr(d, node.func.attr)())
+    if isinstance(node, ast.Subscript):
+        base = fold(node.value, env)
+        if isinstance(node.slice, ast.Slice):
+            lo = fold(node.slice.lower, env) if node.slice.lower is not None else None
+            hi = fold(node.slice.upper, env) if node.slice.upper is not None else None
+            st = fold(node.slice.step, env) if node.slice.step is not None else None
+            try:
+                return base[lo:hi:st]
+            except Exception:
+                raise _Unfoldable("slice")
+        try:
+            return base[fold(node.slice, env)]
+        except Exception:
+            raise _Unfoldable("subscript")
+    if isinstance(node, ast.IfExp):
+        return fold(node.body, env) if fold(node.test, env) else fold(node.orelse, env)
+    if isinstance(node, ast.Compare) and len(node.ops) == 1:
+        a, b = fold(node.left, env), fold(node.comparators[0], env)
+        op = node.ops[0]
+        try:
+            if isinstance(op, ast.Eq):
+                return a == b
+            if isinstance(op, ast.NotEq):
+                return a != b
+            if isinstance(op, ast.In):
+                return a in b
+            if isinstance(op, ast.NotIn):
+                return a not in b
+            if isinstance(op, ast.Lt):
+                return a < b
+            if isinstance(op, ast.LtE):
+                return a <= b
+            if isinstance(op, ast.Gt):
+                return a > b
+            if isinstance(op, ast.GtE):
+                return a >= b
+            if isinstance(op, ast.Is):
+                return a is b
+            if isinstance(op, ast.IsNot):
+                return a is not b
+        except Exception:
+            raise _Unfoldable("compare")
+    if isinstance(node, (ast.ListComp, ast.SetComp, ast.DictComp, ast.GeneratorExp)):
+        out_items: List[Any] = []
+
+        def assign(t: ast.AST, v: Any, e: Dict[str, Any]) -> None:
+            if isinstance(t, ast.Name):
+                e[t.id] = v
+            elif isinstance(t, (ast.Tuple, ast.List)):
+                vs = tuple(v)
+                if len(vs) != len(t.elts):
+                    raise _Unfoldable("unpack")
+                for tt, vv in zip(t.elts, vs):
+                    assign(tt, vv, e)
+            else:
+                raise _Unfoldable("target")
+
+        def gen(k: int, e: Dict[str, Any]) -> None:
+            if len(out_items) > 20000:
+                raise _Unfoldable("too large")
+            if k == len(node.generators):
+                if isinstance(node, ast.DictComp):
+                    out_items.append((fold(node.key, e), fold(node.value, e)))
+                else:
+                    out_items.append(fold(node.elt, e))
+                return
+            g = node.generators[k]
+            if g.is_async:
+                raise _Unfoldable("async")
+            it = fold(g.iter, e)
+            if isinstance(it, dict):
+                it = tuple(it)
+            for v in it:
+                e2 = dict(e)
+                assign(g.target, v, e2)
+                if all(fold(c, e2) for c in g.ifs):
+                    gen(k + 1, e2)
+
+        gen(0, dict(env))
+        if isinstance(node, ast.DictComp):
+            return dict(out_items)
+        if isinstance(node, ast.SetComp):
+            return frozenset(out_items)
+        return tuple(out_items)
     raise _Unfoldable(type(node).__name__)
 
 
